@@ -6,6 +6,7 @@ mod s_star;
 mod oracle;
 mod o_sharks;
 mod o_wire;
+mod o_star;
 
 fn main() {
   let args: Vec<String> = std::env::args().collect();
